@@ -371,7 +371,7 @@ Definition agree_hist (H : bytes -> bytes) (seeds : option (list (namespec * byt
   Nat.eqb (List.length (ms_listings st)) (List.length obs_ls)
   && forallb (fun p => listing_match all_ts (fst p) (snd p)) (combine (ms_listings st) obs_ls)
   && forallb (fun p => let '(ro, m) := p in
-                       obs_agree (order_exact (run_steps (fst ro))) m (o_out (snd ro)))
+                       obs_agree (cmp_of (run_steps (fst ro))) m (o_out (snd ro)))
              (combine ros (ms_outs st)).
 
 (* ------------------------------------------------------------------ the property on observations *)
@@ -412,7 +412,7 @@ Fixpoint prop_runs (tab : list (bytes * bytes)) (prev : option (list centry))
   match ros with
   | [] => true
   | (r, ob) :: rest =>
-      let exact := order_exact (run_steps r) in
+      let exact := cmp_of (run_steps r) in
       let transparent :=
         not_hang (o_out ob) && not_hang (o_plain ob) && obs_agree exact (o_plain ob) (o_out ob) in
       let dir_ok :=
